@@ -202,7 +202,8 @@ def bootstrap_runs(chk: Check, n, kinds):
                                nprng.poisson(2.5, nrows)).astype(float) if zeros else
                       nprng.lognormal(1, 0.7, nrows)).tolist(),
                 "s": (1 + nprng.poisson(2, nrows)).astype(float).tolist(),
-                "u": nprng.normal(0, 1, nrows).tolist()}
+                "u": nprng.normal(0, 1, nrows).tolist(),
+                "k": [int(v) for v in 1 + nprng.poisson(3, nrows)]}        # an INTEGER column
         alt = rng.choice(["two-sided", "greater", "less"])
         cl = rng.choice([0.8, 0.9, 0.95, 0.99])
         method = rng.choice(["percentile", "basic", "bca"])
@@ -218,8 +219,9 @@ def bootstrap_runs(chk: Check, n, kinds):
             columns, stat = "x", np.mean
             metric = tt.Bootstrap("x", np.mean, **common_kw)
         elif skind == "ratio":
-            columns, stat = ("x", "s"), ratio_of_means
-            metric = tt.Bootstrap(("x", "s"), ratio_of_means, **common_kw)
+            # (every other time the INTEGER column is declared first: the stack must still hold the float values)
+            columns, stat = (("x", "s"), ratio_of_means) if i % 8 < 4 else (("k", "x"), ratio_of_means)
+            metric = tt.Bootstrap(columns, ratio_of_means, **common_kw)
         elif skind == "median":
             columns, stat = ("u",), (lambda a, axis=0: np.median(a, axis=axis)[..., 0])
             metric = tt.Bootstrap(("u",), stat, **common_kw)
